@@ -12,12 +12,12 @@ claim("C01", "codec-table extraction from MIR success paths vs APPNOTE tables; p
 claim("C02", "codec tables vs specification; sibling-expression agreement; interval/guard analysis of narrowing casts feeding record fields; flag decision table; stream-position provenance",
       N + "Record layouts equal the APPNOTE tables (a judge that shares no code with the crate); local and central headers write identical expressions for shared fields and the re-patched extra length; no narrowing cast "
       "into a record field without clamp/guard/checked conversion (lengths >= 65536 are rejected, not wrapped); offsets/counts recorded from stream positions; bits 0/11 decision table; version-needed table; ZIP64 "
-      "thresholds, sentinel consistency and end-record condition.",
+      "thresholds, sentinel consistency and end-record condition. Also: the three length guards refuse exactly len >= 65536; all writer seeks are absolute (SeekFrom::Start) and end_extra_data returns to the recorded data start; extra data rejected by validation cannot reach a finished archive; the CRC/size accounting uses the accepted byte count and starts fresh for every entry over all call sequences (C02-TSX).",
       "Residue: acceptance by CPython zipfile / Info-ZIP (another technique); stored CRC vs decoded data; absence of overlap beyond offset provenance.", "DESIGN.md §3 C02")
 claim("C03", "reader codec tables vs APPNOTE; accessor-to-field provenance; dominating-guard facts; call-graph reachability",
       N + "Parser tables (EOCD, ZIP64 EOCD + locator, central header, local header, ZIP64 and AE-x extra fields) equal the specification; each accessor returns the field its name promises; the entry window comes from the "
       "central record while data_start uses the local header's own lengths; archive-offset computation is checked and applied to directory start and every header offset; the end-record search spans 22 + 65535 bytes; "
-      "duplicate-name / not-found semantics; ZipArchive::new cannot reach per-entry decoding.",
+      "duplicate-name / not-found semantics; ZipArchive::new cannot reach per-entry decoding. Also: a who-may-assign table for every metadata field of ZipFileData (nothing replaces a parsed value except the ZIP64/AE-x extra fields and the archive offset); the (directory, read-only) -> mode table of MS-DOS entries; classic disk numbers compared only on unmasked end records; local-header lengths added in 64 bits; timestamps reported verbatim.",
       "Residue: faithful content for foreign compressed streams; tolerance of every legal layout (gaps, ordering, data-descriptor variants).", "DESIGN.md §3 C03")
 claim("C04", "ADT type facts; path-enumerated decision table over boolean atoms; provenance of constructor arguments",
       N + "Every decoding variant of the entry reader wraps Crc32Reader; it is built with the entry's declared CRC and with an AE-2 exemption that is true only for vendor version AE-2; Crc32Reader::read's table over "
@@ -27,7 +27,7 @@ claim("C05", "MIR panic-site inventory over the call-graph closure of the reader
              "classification; allocation-size provenance",
       N + "No undischarged panic-capable site (overflow/bounds/division Assert, unwrap/expect, panic!, panicking std call) is reachable from ZipArchive/ZipFile/stream reader/new_append; the decoder constructor's "
       "fall-through panic is unreachable (open path rejects exactly those methods; invariant M); ZipFile lazy-reader typestate; every loop makes progress by a recognised pattern; allocations sized by input are "
-      "bounded by type or guarded against the stream.",
+      "bounded by type or guarded against the stream. Also: allocation guards compare against a stream-OBSERVED bound (not a declared field); ZipFile's lazy-reader invariant decided by the typestate engine over every read/get_raw_reader/drop sequence from every constructor; AES reader state machine panic-free.",
       "Residue: peak-memory multiple, wall time, decompression bombs, panics inside dependencies. Reviewed entries name the rule they rely on and are void when it fails.", "DESIGN.md §3 C05")
 claim("C06", "path-enumerated decision table over Component kinds; switch-arm effect table; closure analysis; delegation check",
       N + "enclosed_name: NUL => None; Prefix/RootDir => None; ParentDir => checked depth-1 (None on underflow); Normal => depth+1; CurDir => no effect; exhausted => Some(unmodified name); no other atom decides. "
@@ -53,7 +53,7 @@ claim("C10", "reader codec tables + sibling-expression agreement; dominating fac
       "Residue: equality of delivered contents/metadata over all archives and consumption patterns.", "DESIGN.md §3 C10")
 claim("C11", "use-classification of every I/O Result (def-use over MIR); swallowed-variant analysis; control dependence of panics on Err edges; position-arithmetic discharge; restore-on-success reachability",
       N + "No I/O Result is dropped or merely tested unless reviewed with a structural side-condition; a match that swallows ZipError::Io is allowed only around callees reading an in-memory cursor; no unwrap/expect on "
-      "an I/O Result, no panic on an Err edge; unchecked subtractions on stream positions only between positions of the same call; mem::replace(inner, Closed) is restored on every success path.",
+      "an I/O Result, no panic on an Err edge; unchecked subtractions on stream positions only between positions of the same call; mem::replace(inner, Closed) is restored on every success path. Also: no error-defaulting combinator (unwrap_or*, map_or*, .ok()) on an I/O Result; no buffering adapter whose implicit flush-on-drop discards an error; the readers' typestate (AES reader, ZipFile) stays assertion-free after a failed call.",
       "Residue: the outcome statement 'error or identical to the failure-free run' over fault sequences as a whole (DESIGN.md O1).", "DESIGN.md §3 C11")
 claim("C12", "typestate analysis by abstract interpretation of the MIR of every ZipWriter method over a finite abstraction of the writer's private state, closed under ALL call sequences (reachable-state "
              "exploration with witness traces); MIR panic-site inventory over the writer API; structural typestate invariants; path-enumerated misuse tables",
@@ -67,11 +67,11 @@ claim("C12", "typestate analysis by abstract interpretation of the MIR of every 
       "Residue: 'exactly the entries/bytes' at content level; sequences using the experimental encryption option beyond start_file+write (outside the quantifier, O7).", "DESIGN.md §3 C12")
 claim("C13", "call-graph sibling agreement; closure-capture provenance; aggregate field table; def-use of the parsed entry list; codec tables",
       N + "new_append uses the reader's end-record search, directory location and central parser with the computed archive offset, parses exactly number_of_files records, repositions onto the old directory, and returns "
-      "a writer with writing_raw set, a plain sink, the old comment and the parsed list moved in untouched; finish_file skips the back-patch iff writing_raw and clears it; central writer/parser tables agree.",
+      "a writer with writing_raw set, a plain sink, the old comment and the parsed list moved in untouched; finish_file skips the back-patch iff writing_raw and clears it; central writer/parser tables agree. Also: absolute seeks; local/central sibling agreement of re-emitted records; the raw flag set by new_append is consumed by the first close on every path and over all call sequences (C13-TSX); re-emitted timestamps/fields are the recorded ones.",
       "Residue: behaviour over multi-round histories, foreign bases, >65535 entries; O2 (double ZIP64 block on re-emission), O3.", "DESIGN.md §3 C13")
 claim("C14", "provenance of header values and of the copy's source/sink; must-not-pass-through (compressor switch, encryption); flag ordering",
       N + "The copied entry's CRC/sizes/method/time/permissions/large_file are the source's accessors; bytes move by io::copy from get_raw_reader() (unwraps to the bounded Take, no decoder) into the writer while it is a "
-      "plain stored sink; writing_raw/writing_to_file are set before the copy; the close skips CRC/size recomputation iff raw.",
+      "plain stored sink; writing_raw/writing_to_file are set before the copy; the close skips CRC/size recomputation iff raw. Also: timestamp/method/large-file flag copied on every path to start_entry; nothing on the raw path branches on the compression method (entries with undecodable methods copy verbatim); rename accepts every valid name length; neighbours' accounting unaffected over all call sequences (C14-TSX).",
       "Residue: bit-equality for all sources (follows given a readable source); O6 (file-type bits dropped).", "DESIGN.md §3 C14")
 claim("C15", "path-enumerated decision tables; comparison-site analysis; constant and formula tables vs APPNOTE 6.1; CRC table regeneration; provenance",
       N + "Open table over (password, encrypted flag, AES info) with PASSWORD_REQUIRED identified by constant identity; validator chosen by the data-descriptor flag; 12-byte header, only byte 11 compared with crc>>24 / "
@@ -88,7 +88,7 @@ claim("C17", "must-pass-through (validation before emission); placement provenan
       "NOT decided: the modular-arithmetic identity that makes the padded offset a multiple of align (a solver's job, not this family's).", "DESIGN.md §3 C17")
 claim("C18", "bit-field table extraction (mask/shift/scale/offset) from MIR and comparison with the MS-DOS layout; path-enumerated range table; interval/guard invariant on constructions; panic inventory",
       N + "from_msdos and timepart/datepart are mutually inverse tables covering all 32 bits (bijective without enumeration); the checked constructor accepts exactly the documented ranges; TryFrom guards the year on the "
-      "value it stores; every DateTime construction has year in [1980, 2107], discharging `year - 1980`; fields private; to_time propagates errors.",
+      "value it stores; every DateTime construction has year in [1980, 2107], discharging `year - 1980`; fields private; to_time propagates errors. Also: extra-length guard is the field capacity and its back-patch a checked conversion; absolute seeks / return to the recorded data start; the reader computes the reported data start in 64 bits. Also: from_msdos' bit fields evaluated on all 65536 words against the MS-DOS layout; no function assigns ZipFileData.last_modified_time after parsing; raw copies and append re-emit the recorded words unconditionally.",
       "Residue: calendar correctness of the `time` crate; archive round trip of timestamps beyond the codec slots.", "DESIGN.md §3 C18")
 claim("C19", "table folding of a match over all 256 byte values vs CPython's cp437 codec; dominating facts at decode sites; def-use of the raw buffer; writer tables",
       N + "to_char equals code page 437 for every byte; the ASCII fast path only under all-bytes-<0x80; name/comment decoded by from_utf8_lossy iff bit 11 is set else CP437, in both parsers, nothing else decides; raw "
@@ -96,5 +96,5 @@ claim("C19", "table folding of a match over all 256 byte values vs CPython's cp4
       "Oracle: CPython's cp437 codec (named by the property).", "DESIGN.md §3 C19")
 claim("C20", "ADT type-tree walk for interior mutability; rustc trait-solver verdicts (Send/Sync) captured during extraction; who-may-call on Arc/atomic APIs; provenance of the stored value; signature facts",
       N + "Clones share only Arc<Shared>, whose type tree has no interior mutability except one relaxed atomic; nothing mutates through the Arc; that atomic is stored at one site after the signature check with a value "
-      "derived from header_start and bytes this handle read, and loaded only by accessors; opening takes &mut self and begins with an absolute seek; Shared/ZipFileData: Send + Sync per rustc.",
+      "derived from header_start and bytes this handle read, and loaded only by accessors; opening takes &mut self and begins with an absolute seek; Shared/ZipFileData: Send + Sync per rustc. Also: no process-global mutable state (static with interior mutability, static mut, thread-local) anywhere in the crate.",
       "Residue: actual multi-threaded executions; readers whose Clone shares a cursor.", "DESIGN.md §3 C20")
